@@ -18,13 +18,15 @@ Definition eui64_arith (mac : Z) : Z := (mac / 2 ^ 24) * 2 ^ 40 + 0xFFFE * 2 ^ 2
 Definition modified_eui64_arith (mac : Z) : Z := Z.lxor (eui64_arith mac) (2 ^ 57).
 
 (* ---- hosts for which parse_host_port (escape_ipv6 h ++ ":" ++ port) = (h, port) ----
-   [valid] = is_valid_ipv6 h, i.e. escape_ipv6 put brackets around h *)
+   [valid] = is_valid_ipv6 h, i.e. escape_ipv6 put brackets around h: then every h does
+   (the bracketed text is split at its LAST ']'); otherwise h must be free of ':' and must
+   not start with '[' *)
 Definition rt_host (valid : bool) (h : str) : bool :=
-  if valid then negb (has_char 93%N h)
+  if valid then true
   else negb (has_char 58%N h) && negb (prefixb [91%N] h).
 (* ... and for which parse_host_port (escape_ipv6 h) default = (h, default) *)
 Definition rt_host_default (valid : bool) (h : str) : bool :=
-  if valid then negb (has_char 93%N h)
+  if valid then true
   else negb (bempty h) && negb (prefixb [91%N] h) && negb (count_char 58%N h =? 1).
 
 Definition pv_of (d : option Z) : pyval := match d with None => VNone | Some z => VInt z end.
